@@ -47,6 +47,9 @@ checks = {
  "C10": ("model_checking", "bounded-exhaustive generation of room DAG histories (every pair / triple of honest branches of <=2 actions from a 25-27 action alphabet off a base room) x timestamp and event-ID tie-break patterns x algorithms v1 / v2 / v2.1, resolved by the real entry points and by an independent reference implementation (refstate over refauth); resolved event-ID sets must be equal",
          "Every generated history within the branch-length bound is resolved on the real code and compared with an independent implementation of the three algorithms; a mismatch reports the reference's intermediate stages.",
          "refstate/refauth are the definition (spec + DESIGN.md 5.2); histories are two- and three-way forks of short branches", "4/C10, 5.2"),
+ "C11": ("model_checking", "every presentation (orders of state sets, of events within sets, of the auth list, duplicated auth entries, deprecated flat entry point) of generated fork scenarios; deviation-bounded DFS over the library's own map-iteration and set Slice() orders made explicit by source instrumentation (bound 1 quick / 2 thorough); every labelled DAG on <=4 (5) events through the three topological orderings in every presentation order",
+         "Hidden nondeterminism (Go map order) is turned into enumerable choice points at check time from the current sources; every order within the deviation bound is executed on the real code and the resolved ID set must not change; well-formedness and topological validity are checked on every result.",
+         "orders for maps larger than 4 limited to identity/reverse/rotations/adjacent swaps; each offered order is a legal Go iteration order", "4/C11"),
 }
 pending = {}
 props = [json.loads(l) for l in open('/verif/properties.jsonl')]
